@@ -491,6 +491,24 @@ def gen_random_cases(rng, tier):
                     del b[pos:]
             doc = bytes(b)
         cases.append(case_of(doc, "random-bytes"))
+    # every byte string of length <= 2 over bytes that start encodings, comments, strings and documents, every string of
+    # length 3 over the byte-order-mark bytes, and marks / truncated marks in front of a valid document
+    special = [0x00, 0x20, 0x0a, 0x22, 0x2a, 0x2f, 0x5c, 0x7b, 0x7d, 0x5b, 0x6e, 0x80, 0xbb, 0xbf, 0xc0, 0xef, 0xfe, 0xff]
+    shorts = [b""] + [bytes([x]) for x in special] + [bytes([x, y]) for x in special for y in special]
+    bom = [0xef, 0xbb, 0xbf, 0xfe, 0xff, 0x00, 0x7b]
+    shorts += [bytes([x, y, z]) for x in bom for y in bom for z in bom]
+    if tier == "quick":
+        rng.shuffle(shorts)
+        must = [b"", b"\xef", b"\xef\xbb", b"\xef\xbb\xbf", b"\xff\xfe", b"\xfe\xff", b"\xef\xbb\xbf{", b"{", b"{}", b"/*", b"//", b'"']
+        shorts = must + shorts[:260]
+    for d in shorts:
+        cases.append(case_of(d, "short-bytes"))
+    good = seeds[0]
+    for pre in (b"\xef\xbb\xbf", b"\xef\xbb", b"\xef", b"\xff\xfe", b"\xfe\xff", b"\x00", b"\xef\xbb\xbf\xef\xbb\xbf"):
+        cases.append(case_of(pre + good, "mark-prefix"))
+    step = max(1, len(good) // (40 if tier == "quick" else 400))
+    for k in range(0, len(good), step):
+        cases.append(case_of(good[:k], "truncated-document"))
     return cases
 
 
